@@ -248,6 +248,7 @@ type c15Run struct {
 	timeoutMs int
 	wall      int64 // wall-clock second the model clock is synchronised to
 	straddled bool  // a time-sensitive step ran across a wall-clock second boundary: the history is re-run
+	hard      []Failure // failures that do not depend on whole seconds (reported if they reproduce three times in a row)
 	sent      []c15Sent
 }
 
@@ -779,6 +780,7 @@ func c15RunOnce(c *c15Case) (*c15Run, bool) {
 func c15RunCase(c *c15Case) []Failure {
 	var r *c15Run
 	c.Skipped = false
+	hardRuns := 0
 	for try := 0; ; try++ {
 		// the code compares whole seconds: a direct-drive history is only valid if it ran inside one wall-clock second
 		// (real-call histories synchronise the model clock step by step instead, see c15e2e.go)
@@ -788,6 +790,15 @@ func c15RunCase(c *c15Case) []Failure {
 		var crossed bool
 		r, crossed = c15RunOnce(c)
 		c.Retries = try
+		if len(r.hard) > 0 {
+			hardRuns++
+			if hardRuns >= 3 {
+				c.Skipped = true // the trace after a 3 s stall is not sent to the model; the monitor failure stands
+				return r.hard
+			}
+			continue
+		}
+		hardRuns = 0
 		if !crossed {
 			break
 		}
